@@ -299,21 +299,51 @@ def sqrt_aprox_cells(V, ctx, seed):
 
 
 def atan_index_cells(V, ctx, seed):
-    """atan_index_aprox within 1.25 of atan(x)*128/pi for |x| < 2^31: each path of the binary search returns one constant
-    on an interval of arguments; atan is monotone, so the bound is checked at the two end points with the interval oracle."""
+    """atan_index_aprox within 1.25 of atan(x)*128/pi for |x| < 2^31: the argument space is cut at every end point of a path box
+    of the whole-domain analysis (hints only: a box may be wider than the path's domain); each cell is analysed on its own and must
+    return one constant (otherwise it is bisected); atan is monotone, so the bound is checked at the two ends of the cell with the
+    interval oracle - an end that fails is a concrete counter-example, because the whole cell returns that constant."""
+    from fxai import pipeline as P
     T47 = (1 << 47) - 1
     r = ctx.run("w_atan_index_aprox", [("i", -T47, T47)])
+    an = r.an
     pi = R.pi()
-    n = 0
+    pts = {-T47, T47 + 1}
     for p in r.paths:
         lo, hi = p.state.bounds["p0"]
-        rl, rh = lib.ret_rng(p)
-        if rl != rh:
+        pts.add(max(lo, -T47))
+        pts.add(min(hi, T47) + 1)
+    pts = sorted(pts)
+    work = [(a, b - 1) for a, b in zip(pts, pts[1:]) if a <= b - 1]
+    work.reverse()
+    n = 0
+    reported = False
+    budget = 20000
+    while work:
+        a, b = work.pop()
+        budget -= 1
+        if budget < 0:
             V.oblige(False)
-            V.inconc("w_atan_index_aprox: non-constant result on a path %s" % lib.describe_path(p))
+            V.inconc("atan_index_aprox: cell budget exhausted at [%d,%d]" % (a, b))
+            break
+        rs = an.run(P.init_state(an.fn, [("i", a, b)]))
+        vals = set(lib.ret_rng(q) for q in rs.paths)
+        if rs.alarms:
+            V.oblige(False)
+            V.inconc("w_atan_index_aprox: alarm on the cell [%d,%d]" % (a, b))
             continue
+        if len(vals) != 1 or next(iter(vals))[0] != next(iter(vals))[1]:
+            if a == b:
+                V.oblige(False)
+                V.inconc("w_atan_index_aprox: no single constant at the argument %d" % a)
+                continue
+            m = (a + b) // 2
+            work.append((m + 1, b))
+            work.append((a, m))
+            continue
+        rl = next(iter(vals))[0]
         n += 1
-        for raw in (lo, hi):
+        for raw in (a, b):
             if raw == 0:
                 t = (0, 0)
             else:
@@ -328,12 +358,16 @@ def atan_index_cells(V, ctx, seed):
                 V.oblige(True)
             elif best > lim[1]:
                 V.oblige(False)
-                V.violation("atan_index_aprox within 1.25 of atan(x)*128/pi", "atan_index_aprox",
-                            "atan_index_aprox(raw %d) [%s] = %.4f but atan(x)*128/pi = %.4f" % (
-                                raw, ctx.config, rl / 65536.0, float(R.to_frac(true_idx)[0])), lib.rp(r, (raw,), "within 1.25"))
+                if not reported:
+                    reported = True
+                    V.violation("atan_index_aprox within 1.25 of atan(x)*128/pi", "atan_index_aprox",
+                                "atan_index_aprox(raw %d) [%s] = %.4f (on the whole cell [%d,%d]) but atan(x)*128/pi = %.4f" % (
+                                    raw, ctx.config, rl / 65536.0, a, b, float(R.to_frac(true_idx)[0])), lib.rp(r, (raw,), "within 1.25"))
             else:
                 V.oblige(False)
                 V.inconc("atan_index_aprox(raw %d): error within 2^-200 of the bound" % raw)
+            if a == b:
+                break
     if n < 400:
-        V.broke("atan_index_aprox: only %d constant paths" % n)
+        V.broke("atan_index_aprox: only %d constant cells" % n)
     return n
